@@ -474,11 +474,11 @@ fn zi(v: i64) -> String {
 fn gterm(l: &Live, unit: bool) -> String {
     let es = coq::list(l.edges.iter().map(|e| {
         let w = if unit {
-            "None".to_string()
+            "(@None Z)".to_string()
         } else {
             match e.raw {
                 Raw::Int(i) | Raw::Float(i) => format!("Some {}", zi(i)),
-                _ => "None".to_string(),
+                _ => "(@None Z)".to_string(),
             }
         };
         format!("({},{},{},{})", e.s, e.d, e.id, w)
@@ -1224,7 +1224,7 @@ fn run_pagerank_exact(cx: &mut Ctx, st: &LpgStore, l: &Live, rng: &mut Rng) {
         return;
     }
     let g = gterm(l, true);
-    for _ in 0..3 {
+    for _ in 0..2 {
         let damping = *rng.pick(&[0.5, 0.25, 0.75, 0.0, 1.0, 0.5]);
         let iters = *rng.pick(&[0usize, 1, 2, 3, 6]);
         let tol = *rng.pick(&[1e-10, 0.0, 0.125, 0.03125, 1.0]);
